@@ -108,7 +108,8 @@ func (s *Server) referrerGet(repoStr, arg string) http.HandlerFunc {
 		}
 		// check page cache for digest, two users requesting same referrer list
 		if cacheResp, err := s.referrerCache.Get(referrerKey{dig: d.Digest, artifactType: filterAT}); err == nil {
-			if page >= len(cacheResp) {
+			// only use the page counter if the digest matches
+			if page >= len(cacheResp) || (page > 0 && cacheDig != d.Digest.String()) {
 				page = 0
 			}
 			if filterAT != "" {
